@@ -1,5 +1,6 @@
 ENGINES = [
-    {"name": "E1-symreal", "path": "engine/symreal", "serves_properties": ["C01", "C03", "C04", "C05", "C06", "C07", "C08", "C10", "C11", "C13", "C19"], "kind_free_text": "symbolic execution of the unmodified formak Python on z3-backed reals (operator overloading + numpy shim, DART-style path exploration with solver pruning)"},
+    {"name": "E1-symreal", "path": "engine/symreal", "serves_properties": ["C01", "C03", "C04", "C05", "C06", "C07", "C08", "C09", "C10", "C11", "C13", "C16", "C17", "C18", "C19"], "kind_free_text": "symbolic execution of the unmodified formak Python on z3-backed reals (operator overloading + numpy shim, DART-style path exploration with solver pruning)"},
+    {"name": "E3-crosshair", "path": "engine/ch", "serves_properties": ["C18"], "kind_free_text": "CrossHair 0.0.110 (symbolic execution of Python with z3) over PEP316 conditions on the real ui_state_machine classes; every condition has a reachability twin that must be refuted"},
     {"name": "E2-vsym", "path": "engine/vsym", "serves_properties": ["C02", "C06", "C07", "C08", "C10", "C11", "C12", "C13"], "kind_free_text": "symbolic execution of the real generated C++ / ManagedFilter.h / innovation_filtering.h: compiled by g++ with `double` replaced by a DAG-building scalar, stand-in Eigen/Dense, fork(2) at every symbolic branch, leaves emitted as SMT-LIB and loaded into z3"},
 ]
 NOTES = "Solver-based checking (z3 5.1) of the real code; see DESIGN.md. Exit codes: 0 ok, 1 violation, 2 harness error/inconclusive machinery."
@@ -61,3 +62,20 @@ chk("C19", "translation_validation",
     "The strapdown reference model's update expressions (through a sympy->AST walker validated against sympy.N each run) and the compiled Python model of it (executed on symbolic reals, CSE on and off) are proved equal, state by state, for all 25 real inputs (|q x c|^2 != 0) to a rigid-body specification written in the harness with a hand-written Hamilton product; velocity/position via a guided chain (integral form over the implementation's own acceleration + acceleration == reference + congruence).",
     "Quick tier proves all 16 states of the symbolic model and 11-12 states of the compiled model; thorough all 16 x 3. UF-free (polynomial/rational identities).",
     "symbolic execution of the compiled reference model + SMT equivalence (QF_NRA) against an independent quaternion specification", "E1-symreal", "5/C19")
+
+chk("C09", "other",
+    "(a) one inductive step in exact arithmetic as a guided chain of z3 lemmas up to n=4, m=3 (predict: v'P'v is a sum of squares; update: Joseph identity for arbitrary K, X symmetric and XSX=X from the inverse axioms, KSK'=PH'K', sum-of-squares form, S positive definite) - with C04/C05 tying the code to these formulas, one step from an arbitrary valid state covers histories of any length; (b) the real assert_valid_covariance executed symbolically on diag(d), 0<=d<=1e4, n<=4 with np.linalg.eig replaced by its contract (|error| <= 4 n eps max|d|): the refusal path must be infeasible; (c) concrete histories on the unstubbed code (P2 singular-Jacobian model, 200-600 steps) as the replay target.",
+    "Partial and stated: the lemmas are mathematics about the formulas; the gate clause covers diagonal matrices under a stated eigen-solver contract; LAPACK's floating-point behaviour and rounding in matrix products are outside the claim.",
+    "SMT lemma chain (QF_NRA) + symbolic execution of the validity gate under an eigen-solver contract + concrete replay", "E1-symreal", "5/C09")
+chk("C16", "translation_validation",
+    "transform / mahalanobis / score of the real adapter run on a symbolic data matrix, symbolic noise and calibration (closed-form inverse, sensors of 1 and 2 readings, 1-2 rows, filter off/on); next to it the exported filter is driven by hand as the property states. Per feasible path: every transform entry == by-hand NIS, repeated call identical, mahalanobis == flattened transform, score == documented combination (sqrt as UF), get_params unchanged, each entry == closed-form z'S^-1 z over the recorded (z, S) plus the lemma S PD => NIS >= 0.",
+    "Sign/validity gates assumed not to fire (non-negativity proved separately through the closed form + lemma; S PD is C09's lemma); rows bounded.",
+    "symbolic execution of the real adapter + SMT equivalence against a by-hand filter run", "E1-symreal", "5/C16")
+chk("C17", "translation_validation",
+    "get_params/set_params/clone on an estimator with symbolic noise/configuration values: term-identical round trips, one-field updates for each of the five Config fields, unknown names refused. fit with scipy.optimize.minimize replaced by its contract (success forked; x an ARBITRARY real vector): failure => MinimizationFailure; success => same model/sensor-model/calibration/config objects, process noise keyed exactly by the controls with value max(1e-6, x_i) > 0 at the sorted position (z3), sensor noise keyed exactly by the original sensors/readings with the x entry of the documented flattening order; flatten o inverse-flatten identity for x >= 1e-6.",
+    "What the real optimiser returns is outside the claim (its contract: finite vector of the right length); explicit configuration only.",
+    "symbolic execution with a nondeterministic optimiser stub + SMT validity", "E1-symreal", "5/C17")
+chk("C18", "other",
+    "CrossHair on the real workflow classes: search from each state for a symbolic target (StateId, int, str) returns a shortest path along declared transitions ending in the target or raises ValueError exactly when unreachable / not a StateId; each transition appends its id to an arbitrary symbolic previous history; fitting raises ModelFitError iff fewer than 3 samples (symbolic-length data). All 'Confirmed over all paths', every reachability twin refuted. Grid clause: GridSearchCV replaced by its contract (arbitrary grid point, forked): the exported filter's configuration equals the selected point, defaults elsewhere.",
+    "Cuts: _fit_model_impl no-op for transition conditions, train_test_split sentinel for the guard, GridSearchCV contract stub; grids <= 2 values per Config-level key.",
+    "CrossHair symbolic execution (z3) with reachability twins + fork exploration of a grid-search contract stub", "E3-crosshair + E1-symreal", "5/C18")
